@@ -112,6 +112,24 @@ LineOk(r) == r.fault = 0 /\
          (IF ~d.ok THEN ~r.ok
           ELSE r.ok /\ [sw1 |-> r.sw1, sw2 |-> r.sw2, rdf |-> r.rdf] = d.resp
                /\ (RespIsValid(d.resp) => r.reok /\ r.reeq /\ r.relen = Len(r.in)))
+    \* ---- containers
+    [] r.op = "bignParamsDec" ->
+         LET d == ParamsDec(r.in) IN
+         IF ~d.ok THEN ~r.ok
+         ELSE /\ r.ok
+              /\ [l |-> r.l, p |-> r.p, a |-> r.a, b |-> r.b, seed |-> r.seed, yG |-> r.yG, q |-> r.q] = d.params
+              /\ (~d.cofactor => ParamsEnc(d.params) = r.in)                  \* DER is canonical
+              /\ (r.reok => r.re = ParamsEnc(d.params))
+              /\ (r.operable => r.reok)
+    [] r.op = "bignParamsEnc" ->
+         r.ok /\ r.pc /\ r.out = ParamsEnc([l |-> r.l, p |-> r.p, a |-> r.a, b |-> r.b, seed |-> r.seed, yG |-> r.yG, q |-> r.q])
+    [] r.op = "btokCVCUnwrap" ->         \* fmt = "the code was accepted as a certificate" (any outcome but ERR_BAD_FORMAT)
+         LET d == CvcDec(r.in) IN
+         IF ~d.ok THEN ~r.fmt
+         ELSE r.fmt /\ d.cvc = [authority |-> r.authority, holder |-> r.holder, pubkey |-> r.pubkey, from |-> r.from,
+                                until |-> r.until, hat_eid |-> r.hat_eid, hat_esign |-> r.hat_esign]
+                    /\ d.sig = r.sig
+    [] r.op = "btokCVCLen" -> Same(r, CvcLen(r.in))
     [] OTHER -> FALSE
 
 \* what the specification says about the input of a line (for the report of a disagreement)
@@ -127,6 +145,8 @@ Expected(r) ==
     [] r.op = "seqDec" -> SeqDecStart(r.in, T(r.atag))
     [] r.op = "derOIDDec2" -> OidDec2(r.in, r.aoid)
     [] r.op = "derStartsWith" -> StartsWith(r.in, T(r.atag))
+    [] r.op = "btokCVCUnwrap" -> LET d == CvcDec(r.in) IN IF d.ok THEN <<"accepted", d.n>> ELSE <<"rejected", CvcBodyDec(DropN(r.in, 4)).ok>>
+    [] r.op = "bignParamsDec" -> LET d == ParamsDec(r.in) IN IF d.ok THEN <<"accepted", d.n, d.cofactor>> ELSE <<"rejected">>
     [] r.op = "apduCmdDec" -> IF Len(r.in) > 64 THEN <<"long input", CmdDec(r.in).ok>> ELSE <<CmdDec(r.in), CmdIsCanonical(r.in)>>
     [] OTHER -> "see the reference semantics"
 
@@ -135,5 +155,5 @@ Init == phase = 0 /\ idx = 0 /\ ok = TRUE
 Next == \/ phase = 0 /\ phase' = 1 /\ idx' \in 1..Len(Tr) /\ ok' = TRUE
         \/ phase = 1 /\ phase' = 2 /\ idx' = idx /\ ok' = LineOk(Tr[idx])
                      /\ (ok' \/ PrintT(<<"@BAD", idx>>))
-                     /\ (ok' \/ Tr[idx].fault # 0 \/ Len(Tr[idx].in) > 64 \/ PrintT(<<"@SPEC", idx, Expected(Tr[idx])>>))
+                     /\ (ok' \/ Tr[idx].fault # 0 \/ (Len(Tr[idx].in) > 64 /\ Tr[idx].op \notin {"bignParamsDec", "btokCVCUnwrap"}) \/ PrintT(<<"@SPEC", idx, Expected(Tr[idx])>>))
 =============================================================================
